@@ -12,7 +12,9 @@
      modes r      selector.modes;  option_names r / preselection r  the chooser
      select r s   the mode chosen for s = (dashboard string, chooser selection)
      trace r ops  the callbacks delivered by a sequence of start/periodic/
-                  disable/run()/endCompetition calls
+                  disable/run()/endCompetition calls; a run() period lists the
+                  passes of its loop as (clock, autonomous+enabled?, disable()
+                  called on the selector during this pass?)
      conforms     the language (on_enable . on_iteration* . on_disable)* of the
                   property, period by period, for the selected modes *)
 From Coq Require Import String List ZArith Bool.
@@ -151,10 +153,27 @@ Theorem C14_nothing_after_disable : forall r ops,
   well_formed ops = true -> clock_monotone ops -> quiet_after_disable (trace r ops).
 Proof. exact nothing_after_disable. Qed.
 
-(* once per loop: one run() period delivers exactly one on_iteration per pass
-   of the loop that saw "autonomous and enabled", with t = clock - entry time *)
+(* once per loop: one run() period delivers on_enable, then exactly one
+   on_iteration per live pass of the loop -- the passes that saw "autonomous and
+   enabled", up to and including the pass during which somebody (an iter_fn hook,
+   another thread) called disable() -- with t = clock - entry time, then on_disable
+   exactly once, whoever called disable() first *)
 Theorem C14_run_period_exact : forall r st s t0 wakes,
   active st = None ->
+  do_run r st s t0 wakes =
+  (mkL None (timer st) (robot_exit st),
+   match select r s with
+   | None => []
+   | Some m => OnEnable m ::
+               map (OnIteration m)
+                   (if robot_exit st then [] else map (fun now => now - t0)%Z (live_prefix wakes)) ++
+               [OnDisable m]
+   end).
+Proof. exact run_period_exact. Qed.
+
+(* nobody calls disable() during the loop: one on_iteration per enabled pass *)
+Theorem C14_run_period_undisturbed : forall r st s t0 wakes,
+  active st = None -> undisturbed wakes ->
   do_run r st s t0 wakes =
   (mkL None (timer st) (robot_exit st),
    match select r s with
@@ -164,7 +183,20 @@ Theorem C14_run_period_exact : forall r st s t0 wakes,
                    (if robot_exit st then [] else map (fun now => now - t0)%Z (enabled_prefix wakes)) ++
                [OnDisable m]
    end).
-Proof. exact run_period_exact. Qed.
+Proof. exact run_period_undisturbed. Qed.
+
+(* disable() called while run() is still going round (during the pass that read
+   [now]; the passes [pre] before it enabled and undisturbed): on_disable is
+   delivered once, and NOTHING after it -- however many passes [post] the loop
+   still makes with the driver station in autonomous+enabled, and although run()
+   calls disable() again when the loop ends *)
+Theorem C14_run_period_disable_mid : forall r st s m t0 pre now post,
+  active st = None -> robot_exit st = false -> select r s = Some m -> Forall calm pre ->
+  do_run r st s t0 (pre ++ (now, true, true) :: post) =
+  (mkL None (timer st) false,
+   OnEnable m ::
+   map (OnIteration m) (map (fun n => n - t0)%Z (map wake_now pre ++ [now])) ++ [OnDisable m]).
+Proof. exact run_period_disabled_mid. Qed.
 
 (* ... and start . periodic^n . disable delivers exactly n of them *)
 Theorem C14_timed_period_exact : forall r st s now nows,
@@ -262,11 +294,28 @@ Proof. eexists. split; [vm_compute; reflexivity|]. vm_compute. auto. Qed.
 Example ex_lifecycle :
   exists r, discover false ex_pkg = Built r /\
   let ops := [Start (None, None) 100; Periodic 120; Periodic 140; Disable; Disable; Periodic 150;
-              RunPeriod (Some "two", Some "one") 200 [(200, true); (220, true); (240, true); (260, false)]]%Z in
+              RunPeriod (Some "two", Some "one") 200
+                [(200, true, false); (220, true, false); (240, true, false); (260, false, false)]]%Z in
   well_formed ops = true /\ clock_monotone ops /\
   trace r ops = [OnEnable ex_A; OnIteration ex_A 20; OnIteration ex_A 40; OnDisable ex_A;
                  OnEnable ex_B; OnIteration ex_B 0; OnIteration ex_B 20; OnIteration ex_B 40;
                  OnDisable ex_B]%Z.
+Proof.
+  eexists. split; [vm_compute; reflexivity|]. split; [reflexivity|].
+  split; [unfold clock_monotone; simpl; intuition discriminate|reflexivity].
+Qed.
+
+(* a run() period during whose second pass an iter_fn hook calls disable(), the
+   driver station staying in autonomous+enabled for two more passes: the mode
+   hears nothing after its on_disable; the next period works as usual *)
+Example ex_disable_mid_run :
+  exists r, discover false ex_pkg = Built r /\
+  let ops := [RunPeriod (None, None) 100
+                [(100, true, false); (120, true, true); (140, true, false); (160, true, false); (180, false, false)];
+              RunPeriod (Some "two", None) 200 [(200, true, false); (220, false, false)]]%Z in
+  well_formed ops = true /\ clock_monotone ops /\
+  trace r ops = [OnEnable ex_A; OnIteration ex_A 0; OnIteration ex_A 20; OnDisable ex_A;
+                 OnEnable ex_B; OnIteration ex_B 0; OnDisable ex_B]%Z.
 Proof.
   eexists. split; [vm_compute; reflexivity|]. split; [reflexivity|].
   split; [unfold clock_monotone; simpl; intuition discriminate|reflexivity].
@@ -288,6 +337,8 @@ Print Assumptions C14_lifecycle.
 Print Assumptions C14_only_selected_modes.
 Print Assumptions C14_nothing_after_disable.
 Print Assumptions C14_run_period_exact.
+Print Assumptions C14_run_period_undisturbed.
+Print Assumptions C14_run_period_disable_mid.
 Print Assumptions C14_timed_period_exact.
 Print Assumptions C14_package_failure_policy.
 Print Assumptions C14_fms_key_clash_refuted.
